@@ -160,6 +160,10 @@ def run(ctx):
           kw['n_constraints'] = None      # the documented default 20 * n_classes^2 (fully labelled data only)
         else:
           kw['n_constraints'] = int(rng.integers(8, 40))
+        if name in ('ITML_Supervised', 'LSML_Supervised', 'MMC_Supervised') and (rep + layouts.index(layout)) % 2 == 0:
+          # a data-dependent prior: it is computed by the base learner from the points that appear in the constraints
+          kw['init' if name == 'MMC_Supervised' else 'prior'] = 'covariance'
+          ctx.hist('prior', name + ': covariance')
         kw = fits.sdml_fix_balance(name, kw, data)
         if name == 'SDML_Supervised':
           kw['balance_param'] = min(kw['balance_param'], 2.0 ** -12)
